@@ -232,7 +232,7 @@ type StrKey struct {
 	V    int64
 }
 
-// ---- T10 (known-finding corpus only): unixtime serializer on an unsigned field ----
+// ---- T10: unixtime serializer on an unsigned field (panicked before repo commit f5d72d2) ----
 type UnixU struct {
 	ID   uint   `gorm:"primaryKey"`
 	Mark string `gorm:"uniqueIndex"`
